@@ -17,6 +17,7 @@ import (
 	"sort"
 	"strconv"
 	"strings"
+	"sync"
 	"testing"
 	"time"
 
@@ -26,6 +27,8 @@ import (
 	"github.com/refraction-networking/uquic/internal/protocol"
 	"github.com/refraction-networking/uquic/internal/verifharness/vh"
 	"github.com/refraction-networking/uquic/internal/wire"
+	"github.com/refraction-networking/uquic/qlog"
+	"github.com/refraction-networking/uquic/qlogwriter"
 	tls "github.com/refraction-networking/utls"
 )
 
@@ -676,8 +679,8 @@ func (rn *runner) Exec(op string) string {
 		if d.err != "" {
 			return d.err
 		}
-		return fmt.Sprintf("cs=%s exts=%s sexts=%s qtp=%s scid=%s frames=%s fp=%s own=%s", fmtU16(d.cs), fmtU16(d.exts),
-			fmtU16(specExtTypes(rn.spec)), hx(d.qtp), hx(d.scid), fmtIDs(d.frames), d.fp, tokensOf(qtpExt(rn.spec).TransportParameters))
+		return fmt.Sprintf("cs=%s exts=%s sexts=%s qtp=%s scid=%s frames=%s fp=%s rec=%s own=%s", fmtU16(d.cs), fmtU16(d.exts),
+			fmtU16(specExtTypes(rn.spec)), hx(d.qtp), hx(d.scid), fmtIDs(d.frames), d.fp, d.rec, tokensOf(qtpExt(rn.spec).TransportParameters))
 	case "shufdist":
 		if len(f) != 3 {
 			return "bad-op"
@@ -844,6 +847,36 @@ type dialResult struct {
 	scid   []byte
 	frames []uint64
 	fp     string
+	rec    string // the connection's own transport parameters as it logged them (qlog parameters_set, local)
+}
+
+// recTrace records the connection's transport:parameters_set event for its own parameters.
+type recTrace struct {
+	mu  sync.Mutex
+	rec string
+}
+
+func (t *recTrace) AddProducer() qlogwriter.Recorder { return t }
+func (t *recTrace) SupportsSchemas(string) bool       { return true }
+func (t *recTrace) Close() error                      { return nil }
+func (t *recTrace) RecordEvent(ev qlogwriter.Event) {
+	ps, ok := ev.(qlog.ParametersSet)
+	if !ok || ps.Initiator != qlog.InitiatorLocal || ps.Restore {
+		return
+	}
+	dm := 0
+	if ps.DisableActiveMigration {
+		dm = 1
+	}
+	t.mu.Lock()
+	defer t.mu.Unlock()
+	if t.rec != "" {
+		return
+	}
+	t.rec = fmt.Sprintf("%d,%d,%d,%d,%d,%d,%d,%d,%d,%d;%d;%s", int64(ps.MaxIdleTimeout), int64(ps.InitialMaxData),
+		int64(ps.InitialMaxStreamDataBidiLocal), int64(ps.InitialMaxStreamDataBidiRemote), int64(ps.InitialMaxStreamDataUni),
+		ps.InitialMaxStreamsBidi, ps.InitialMaxStreamsUni, int64(ps.MaxAckDelay), ps.ActiveConnectionIDLimit,
+		int64(ps.MaxDatagramFrameSize), dm, hx(ps.InitialSourceConnectionID.Bytes()))
 }
 
 func (rn *runner) dial(spec *quic.QUICSpec) (res dialResult) {
@@ -859,6 +892,8 @@ func (rn *runner) dial(spec *quic.QUICSpec) (res dialResult) {
 		return dialResult{err: "E:listen"}
 	}
 	tr := &quic.UTransport{Transport: &quic.Transport{Conn: clientConn}, QUICSpec: spec}
+	trace := &recTrace{}
+	conf := &quic.Config{Tracer: func(context.Context, bool, quic.ConnectionID) qlogwriter.Trace { return trace }}
 	ctx, cancel := context.WithTimeout(context.Background(), 10*time.Second)
 	done := make(chan string, 1)
 	go func() {
@@ -869,7 +904,7 @@ func (rn *runner) dial(spec *quic.QUICSpec) (res dialResult) {
 			}
 			done <- ""
 		}()
-		tr.Dial(ctx, rn.server.LocalAddr(), &tls.Config{InsecureSkipVerify: true, ServerName: "example.com", NextProtos: []string{"h3"}}, &quic.Config{}) //nolint:errcheck
+		tr.Dial(ctx, rn.server.LocalAddr(), &tls.Config{InsecureSkipVerify: true, ServerName: "example.com", NextProtos: []string{"h3"}}, conf) //nolint:errcheck
 	}()
 	defer func() {
 		cancel()
@@ -942,6 +977,12 @@ func (rn *runner) dial(spec *quic.QUICSpec) (res dialResult) {
 		res.frames = append(res.frames, t)
 	}
 	sort.Slice(res.frames, func(i, j int) bool { return res.frames[i] < res.frames[j] })
+	trace.mu.Lock()
+	res.rec = trace.rec
+	trace.mu.Unlock()
+	if res.rec == "" {
+		res.rec = "-"
+	}
 	res.fp = "-"
 	if chdOK && gci.Completed() {
 		if fp, err := clienthellod.GenerateQUICFingerprint(gci); err == nil {
